@@ -63,6 +63,8 @@ func main() {
 	switch os.Args[1] {
 	case "replay":
 		os.Exit(replay(os.Args[2]))
+	case "warm":
+		os.Exit(warm())
 	case "list":
 		for _, id := range propertyIDs() {
 			fmt.Println(id)
@@ -468,6 +470,11 @@ func runCheck(id, tier, only string, keep bool) int {
 	if len(newVios) > 0 {
 		rdir := filepath.Join(verifDir, "replays", id)
 		os.MkdirAll(rdir, 0o755)
+		var all strings.Builder
+		for _, v := range newVios {
+			fmt.Fprintf(&all, "%s\n    %s\n", v.Key, oneLine(v.What, 1500))
+		}
+		os.WriteFile(filepath.Join(rdir, "ALL-"+tier+".txt"), []byte(all.String()), 0o644)
 		for i, v := range newVios {
 			if i >= 6 {
 				fmt.Printf("  (+%d further distinct violations not written out)\n", len(newVios)-i)
@@ -725,4 +732,42 @@ func withInstr(j Job) string {
 		return "__instr=" + j.Instr
 	}
 	return j.Params + ";__instr=" + j.Instr
+}
+
+
+// warm builds every test binary the plans need once, so that the build cache
+// is hot when the checks run (setup_cmd).
+func warm() int {
+	work := filepath.Join(verifDir, ".work", fmt.Sprintf("warm-%d", os.Getpid()))
+	os.MkdirAll(work, 0o755)
+	defer os.RemoveAll(work)
+	seen := map[buildKey]bool{}
+	overlays := map[string]string{}
+	for _, id := range propertyIDs() {
+		for _, tier := range []string{"quick", "thorough"} {
+			plan, ok := plans(id, tier)
+			if !ok {
+				continue
+			}
+			for _, j := range plan.Jobs {
+				k := buildKey{j.Pkg, j.Instr, j.Race}
+				if seen[k] {
+					continue
+				}
+				seen[k] = true
+				if _, ok := overlays[j.Instr]; !ok {
+					ov, err := makeOverlay(work, j.Instr)
+					if err != nil {
+						return fatal(2, "overlay: %v", err)
+					}
+					overlays[j.Instr] = ov
+				}
+				if _, err := build(work, k, overlays[j.Instr]); err != nil {
+					return fatal(2, "%v", err)
+				}
+				fmt.Printf("warmed %s instr=%q race=%v\n", k.pkg, k.instr, k.race)
+			}
+		}
+	}
+	return 0
 }
